@@ -70,7 +70,8 @@ def stmts_src(stmts, root, ind):
         elif k == "unique":
             out.append(pad + "vsc.unique(%s)" % ", ".join(expr_src(x, root) for x in s[1]))
         elif k == "solve_order":
-            out.append(pad + "vsc.solve_order(%s, %s)" % (expr_src(s[1], root), expr_src(s[2], root)))
+            side = lambda x: "[%s]" % ", ".join(expr_src(y, root) for y in x) if isinstance(x[0], list) else expr_src(x, root)
+            out.append(pad + "vsc.solve_order(%s, %s)" % (side(s[1]), side(s[2])))
         elif k == "dist":
             ws = []
             for it, w in s[2]:
